@@ -61,6 +61,7 @@ func (v ATVal) Cell() string {
 }
 
 type ATCol struct {
+	Big      int64 // non-zero: values of this column cluster at this magnitude (tiny relative differences)
 	Name     string
 	Typ      byte // 'i' or 's'
 	Nullable bool
@@ -68,9 +69,9 @@ type ATCol struct {
 
 type ATSchema struct {
 	Collide bool
-	Table string
-	Cols  []ATCol
-	PK    []int
+	Table   string
+	Cols    []ATCol
+	PK      []int
 }
 
 func (s *ATSchema) Tok() string {
@@ -279,10 +280,12 @@ func (s *ATStmt) Render(sc *ATSchema) (string, []interface{}, string) {
 // ---- generation ----
 
 type ATGenOpts struct {
-	AllowFindings bool // also generate statement shapes that are known findings (class-tagged)
-	NullableVals  bool
-	StrPK         bool
-	CollideKeys   bool // composite integer keys whose parts concatenate to the same text: (1,10)/(11,0), (1,11)/(11,1)
+	AllowFindings   bool // also generate statement shapes that are known findings (class-tagged)
+	NullableVals    bool
+	StrPK           bool
+	ContinueOnError bool // explicit transactions may ignore a failing INSERT and commit
+	BigInts         bool // integer columns cluster at one large magnitude
+	CollideKeys     bool // composite integer keys whose parts concatenate to the same text: (1,10)/(11,0), (1,11)/(11,1)
 }
 
 func genSchema(r *Rng, table string, o ATGenOpts) *ATSchema {
@@ -297,6 +300,14 @@ func genSchema(r *Rng, table string, o ATGenOpts) *ATSchema {
 			c.Nullable = true
 		}
 		sc.Cols = append(sc.Cols, c)
+	}
+	if o.BigInts {
+		base := []int64{1700000000, 2147483640, 1000000000000, 4503599627370000}[r.Intn(4)]
+		for i := 1; i < n; i++ {
+			if sc.Cols[i].Typ == 'i' {
+				sc.Cols[i].Big = base
+			}
+		}
 	}
 	sc.Cols[0].Name = "id"
 	sc.PK = []int{0}
@@ -318,6 +329,9 @@ func genVal(r *Rng, c ATCol) ATVal {
 		return ATVal{K: 'N'}
 	}
 	if c.Typ == 'i' {
+		if c.Big != 0 && r.Chance(85) {
+			return ATVal{K: 'i', I: c.Big + int64(r.Intn(8))}
+		}
 		if r.Chance(12) {
 			// large magnitudes with tiny differences (timestamps, ids, int32 boundary); all below 2^53
 			base := []int64{1700000000, 2147483640, 1000000000000, 4503599627370000}[r.Intn(4)]
